@@ -33,6 +33,8 @@ pub fn run(config: Config) -> ::anyhow::Result<()> {
         ));
     }
 
+    workers::socket::check_response_buffer_size(&config)?;
+
     let state = State::default();
 
     update_access_list(&config.access_list, &state.access_list)?;
